@@ -198,6 +198,72 @@ def more_answered_once(P, R, xq, rule='C06.MPT.3'):
     R.floor(rule, 1)
 
 
+def slot_reuse_forgets(P, R, rule='C06.MPT.4'):
+    """The per-client masks are indexed by service SLOT, and a slot a removed service leaves is handed to the next new
+    service (it has to be: the masks are 32 bits wide).  A client in flight across that reload still carries the old
+    service's bits for the slot - "already queried", "said OK", "challenge open" - so the new service is never queried
+    about it (and `xreply_ok <new>` is answered with the old service's OK).  Rule: if a slot can be given to a new
+    service, every mask whose bits do not pin the slot (a set bit that comes with a reference on the service keeps the
+    slot from being released) is cleared for that slot, for all clients, on the release or the reuse path - i.e. some
+    function reachable from the releasing or the re-assigning function clears the slot's bit of that mask inside a
+    loop."""
+    cf = P.need_fn('iauth_xquery_config_service')
+    reuse = [s for s in cf.stores() if s.ev['k'] == 'store' and s.ev['lhs'].get('k') == 'idx' and on_path(s.ev['lhs'], 'vec') and is_var(s.ev.get('rhs'))]
+    release = [s for f in P.unit_fns(UNIT) for s in f.stores() if s.ev['k'] == 'store' and s.ev['lhs'].get('k') == 'idx' and on_path(s.ev['lhs'], 'vec') and const_of(s.ev.get('rhs')) == 0]
+    if not reuse:
+        return      # slots are never re-assigned (C17.MPT.5 reports that on its own)
+    if not release:
+        raise AnalysisBroken('slots are re-assigned but never released')
+    # the masks: integer members of the per-client record that are or-ed with a shifted 1
+    masks = {}
+    for f in P.unit_fns(UNIT):
+        for s in f.stores():
+            ev = s.ev
+            if ev['k'] == 'store' and ev.get('op') == '|=' and ev['lhs'].get('k') == 'mem' and ev['lhs'].get('rec') == 'iauth_xquery_client' \
+                    and any(isinstance(x, dict) and x.get('k') == 'bin' and x.get('op') == '<<' for x in walk(ev.get('rhs') or {})):
+                masks.setdefault(ev['lhs']['field'], []).append(s)
+    if not masks:
+        raise AnalysisBroken('no per-client slot mask is set anywhere')
+    roots = {s.fn for s in reuse + release}
+    cl = P.closure(list(roots), may=True)
+    for m, sets in sorted(masks.items()):
+        # pinned: every site that sets a bit also takes a reference on the slot's service (same block)
+        def takes_ref(s):
+            for t in s.fn.stores():
+                if t.ev['k'] == 'store' and holds.outer_field(t.ev['lhs']) == 'refs' and t.ev.get('op') in ('++', '+='):
+                    if t.bid == s.bid or s.fn.dominates(t.bid, s.bid):
+                        return True
+            return False
+        def dropped_with_ref(m=m):
+            ok = True
+            n = 0
+            for f in P.unit_fns(UNIT):
+                for t in f.stores():
+                    if t.ev['k'] == 'store' and holds.outer_field(t.ev['lhs']) == 'refs' and t.ev.get('op') in ('--', '-='):
+                        n += 1
+                        clr = [u for u in f.stores() if u.ev['k'] == 'store' and u.ev.get('op') == '&=' and u.ev['lhs'].get('k') == 'mem' and u.ev['lhs'].get('field') == m]
+                        if not any(u.bid == t.bid or f.dominates(u.bid, t.bid) for u in clr):
+                            ok = False
+            return ok and n > 0
+        pinned = all(takes_ref(s) for s in sets) and dropped_with_ref()
+        rel_guarded = all(any(isinstance(g[0], dict) and on_path(g[0], 'refs') for g in s.fn.guards(s.bid)) for s in release)
+        if pinned and rel_guarded:
+            R.ob(rule, True, sets[0], 'a set bit of %s pins its slot: it is set together with a reference on the service, cleared where the reference is dropped, and a slot is released only when no reference is left' % m, key='slot-mask:%s' % m, nontrivial=False)
+            continue
+        cleared = []
+        for f in cl.values():
+            loops = rules.loops_of(f) if hasattr(rules, 'loops_of') else []
+            for s in f.stores():
+                ev = s.ev
+                if ev['k'] == 'store' and ev.get('op') == '&=' and ev['lhs'].get('k') == 'mem' and ev['lhs'].get('field') == m and ev['lhs'].get('rec') == 'iauth_xquery_client':
+                    in_loop = s.bid in f.reach([e.dst for e in f.out[s.bid]])
+                    if in_loop:
+                        cleared.append(s)
+        R.ob(rule, bool(cleared), reuse[0], 'before a released slot is given to a new service, the slot\'s bit of %s is cleared in every client still in flight' % m,
+             key='slot-reuse:%s' % m)
+    R.floor(rule, 3, 'per-client slot masks')
+
+
 def fanout_complete(P, R, b, rule='C06.MPT.2'):
     """The query builder looks at every service slot: an empty or disabled slot (left behind by a reload) is skipped,
     it does not end the fan-out for the services configured behind it."""
@@ -829,6 +895,7 @@ def run(P, R, tier):
     no_flag_keyed_exit(P, R, b)
     fanout_complete(P, R, b)
     more_answered_once(P, R, xq)
+    slot_reuse_forgets(P, R)
     query_capacity(P, R, xq, b)
     # the prerequisite test is bitset_h_andnot(needed, present)
     rules.bitset_primitives(P, R, 'C06.TAB.3')
